@@ -80,7 +80,8 @@ Proof. cbv zeta. split; vm_compute; reflexivity. Qed.
 
 (* ... and for arbitrary trees of vector/vector binary operators, per-sample
    operators (instant functions, unary minus, arithmetic and comparisons with a
-   literal), aggregations (count; any accumulator with an order-free fold: sum, max, min, group)
+   literal), aggregations (count; any accumulator with an order-free fold: sum, max, min, group;
+   topk/bottomk with a literal k, the reference being defined where no two samples of a group tie)
    over selectors and over range functions of matrix selectors (any function of the window), e.g.
    sum by (z) (abs(a + on (x) b) * ignoring (y) group_left (max_over_time(c[5m] offset 1m) > 2)): every node's stream is its
    per-timestamp denotation (Trees.jdenote) mapped over the grid; its sample IDs are distinct and name series
